@@ -7,8 +7,8 @@ import json, os, shutil, subprocess, sys
 ROOT = os.path.dirname(os.path.dirname(os.path.abspath(__file__)))
 SRC = sys.argv[1] if len(sys.argv) > 1 else "/tmp/mut"
 TABMOD = sys.argv[2] if len(sys.argv) > 2 else "tools.seeded_table"
-CONFIRM = "tools/confirm_mutant4.sh" if "mut4" in SRC else "tools/confirm_mutant3.sh" if "mut3" in SRC else "tools/confirm_mutant.sh"
-RUNNER = "tools/mutant_wt.py" if ("mut3" in SRC or "mut4" in SRC) else "tools/mutant.py"
+CONFIRM = "tools/confirm_mutant5.sh" if "mut5" in SRC else "tools/confirm_mutant4.sh" if "mut4" in SRC else "tools/confirm_mutant3.sh" if "mut3" in SRC else "tools/confirm_mutant.sh"
+RUNNER = "tools/mutant_wt.py" if ("mut3" in SRC or "mut4" in SRC or "mut5" in SRC) else "tools/mutant.py"
 sys.path.insert(0, ROOT)
 import importlib
 TABLE = importlib.import_module(TABMOD).TABLE
